@@ -109,7 +109,7 @@ const (
 
 var NumSites = len(SiteNames)
 
-var siteIter1, siteIterN, siteIterEnd, siteOpBegin, siteAutoSpin, siteOnceWait, siteOnceEnter, siteOnceLeave int
+var siteIter1, siteIterN, siteIterEnd, siteOpBegin, siteAutoSpin, siteOnceWait, siteOnceEnter, siteOnceLeave, siteAutoFirst int
 
 var siteIndex = func() map[string]int {
 	m := make(map[string]int, len(SiteNames))
@@ -121,6 +121,7 @@ var siteIndex = func() map[string]int {
 	}
 	siteIter1, siteIterN, siteIterEnd, siteOpBegin = m["map.iter1"], m["map.iterN"], m["map.iterEnd"], m["op.begin"]
 	siteAutoSpin = m["auto.spin"]
+	siteAutoFirst = m["auto.atomic"]
 	siteOnceWait, siteOnceEnter, siteOnceLeave = m["auto.onceWait"], m["auto.onceEnter"], m["auto.onceLeave"]
 	return m
 }()
@@ -279,6 +280,8 @@ type Sim struct {
 	iterDepth [MaxTasks]int // nesting of encode-side map iterations the task is inside
 	iterSupp  [MaxTasks]int // depth at which an iteration over more than one entry began (0 = none)
 	onceDepth [MaxTasks]int // how many once functions (sync.Once.Do) the task is inside
+	lastSite  [MaxTasks]int // the site of the task's previous yield and how often in a row
+	sameSite  [MaxTasks]int
 	started   [MaxTasks]bool
 	cur       int
 	stepCount int
@@ -579,6 +582,14 @@ const maxLoopIters = 50000000
 
 // freeRunTicks x 100 ms without a yield from anybody: the task holding the
 // baton is blocked for real (in a primitive the simulator does not model).
+// ShortenFreeRun: once a run of this process had to fall back, the following ones fall back
+// after 0.2 s (the build evidently contains a blocking operation the simulator does not model).
+func ShortenFreeRun() {
+	if freeRunTicks > 2 {
+		freeRunTicks = 2
+	}
+}
+
 var freeRunTicks = func() int {
 	if n, err := strconv.Atoi(os.Getenv("VERIF_FREERUN_TICKS")); err == nil && n > 0 {
 		return n
@@ -694,7 +705,15 @@ func (s *Sim) onYield(t, site int) {
 	}
 	s.record(t, site)
 	s.yields[t]++
-	if site == SiteMutexWait || (site == siteAutoSpin && s.otherEligible(t)) {
+	// a task that keeps yielding at one and the same unknown or automatic site (a wait loop of a
+	// kind the rewriter does not recognise, a seam somebody added) is treated like a spinning one
+	if site == s.lastSite[t] {
+		s.sameSite[t]++
+	} else {
+		s.lastSite[t], s.sameSite[t] = site, 1
+	}
+	waiting := site == siteAutoSpin || (s.sameSite[t] > 32 && (site == SiteOther || (site >= siteAutoFirst && site <= siteOnceLeave)))
+	if site == SiteMutexWait || (waiting && s.otherEligible(t)) {
 		// waiting for a lock, or going round a loop that waits on a synchronisation
 		// operation (a spin lock of the code's own) while somebody else could run:
 		// not runnable again until another task has made progress. A spinning task
